@@ -309,9 +309,12 @@ def failure_of(prop, r):
     if spec["judge"] == "L1":
         if r.l1 and prop in r.l1["props"]:
             return "policy model contradicted: " + r.l1["text"]
+        for a in r.acc:
+            if prop in a["props"]:
+                return "reference semantics rejected the implementation's events: " + a["text"]
     if spec["judge"] == "TWIN":
         if r.twin and r.twin["prop"] == prop and not r.twin["ok"]:
-            if "out of step" in r.twin["text"] or "ended early" in r.twin["text"]:
+            if "out of step" in r.twin["text"] or "ended early" in r.twin["text"] or "no clear in script" in r.twin["text"]:
                 return None  # malformed twin script (only arises while shrinking)
             return "twin runs differ: " + r.twin["text"]
         if r.twin and r.twin["prop"] == prop:
